@@ -117,7 +117,7 @@ def main(argv=None):
     nshards = max(1, min(nshards, os.cpu_count() or 4))
     scratch = menv.enter_scratch()
     t0 = time.time()
-    watchdog = meta.get('watchdog_s', {}).get(args.tier, 900 if args.tier == 'quick' else 4 * 3600)
+    watchdog = meta.get('watchdog_s', {}).get(args.tier, 1800 if args.tier == 'quick' else 4 * 3600)
     results, problems = run_shards(prop, args.tier, seed, nshards, scratch, timeout=watchdog)
     agg = aggregate(results)
     wall = time.time() - t0
@@ -125,7 +125,7 @@ def main(argv=None):
     known = [k for k in load_known() if k['property'] == prop and k.get('status') == 'known']
     known_keys = {k['key']: k for k in known}
     ev_dir = os.path.join(VERIF, 'evidence')
-    rp_dir = os.path.join(ev_dir, 'replay')
+    rp_dir = os.path.join(ev_dir, 'replay') if not args.no_evidence else os.path.join(menv.scratch_root(), 'replay-no-evidence')
     os.makedirs(rp_dir, exist_ok=True)
 
     unknown, seen_known = [], {}
